@@ -5,8 +5,9 @@ alphabet of edit operations over it, a history prefix and a depth d.  run_case a
 and then explores EVERY continuation of length <= d over the alphabet, breadth first, merging histories that lead to the
 same (real router state, model state).  Beside the real router a model of what the statement says survives is kept:
 
-    add rule/method/handler [name] [overwrite]   accepted -> route exists, METHOD -> handler, name -> route
-                                                 refused  -> nothing changes (duplicate method without overwrite,
+    add rule/method(s)/handler [name] [overwrite] accepted -> route exists, every METHOD of the call -> handler, name -> route
+                                                 refused  -> nothing changes, no method of the call's list is registered
+                                                             (duplicate method without overwrite,
                                                              name held by another route without overwrite, filter clash)
     remove(rule) / remove(name=) / remove('prefix*')  -> the route(s) and every name pointing to them are gone
     add hook / remove hook                        -> hook present / gone ("prefix*" removal leaves the fate of hooks under
@@ -33,7 +34,7 @@ from bounded.cases import _router_common as RC
 
 R, W = RC.R, RC.W
 
-BOUND = ('5 universes (quick; thorough adds a 6th): literal split/merge nodes /ab,/abc,/abd; wildcard siblings /a/:x,/a/:x/b,/a/b '
+BOUND = ('7 universes (quick; thorough adds an 8th): literal split/merge nodes /ab,/abc,/abd; wildcard siblings /a/:x,/a/:x/b,/a/b '
          'with the filter-clashing /a/<n:int>; hook-only prefixes /h,/q/r,/ over /h/a,/h/b,/h/a/c; two names over three '
          'rules; root + path filter; (in-segment wildcards + int) - each 3-4 route rules, 1-4 hook rules incl. prefix-only, '
          'mid-segment and root ones, 0-2 names, 1-2 removal prefixes, alphabets of 14-17 operations {add, add overwrite, '
@@ -41,7 +42,10 @@ BOUND = ('5 universes (quick; thorough adds a 6th): literal split/merge nodes /a
          'hook}: ALL histories of length <= 4 (thorough <= 5) explored breadth first with merging on (real tree + indexes, '
          'model) state, every reached state checked on <= 40 probe paths x {GET,POST} + lookups + hooks fired through '
          '__call__; plus 80 (thorough 2500) seeded random walks of length 40 over the 8-rule / 3-hook / 2-name / 3-prefix '
-         'universe of DESIGN.md, checked after every step, restarting after a failure')
+         'universe of DESIGN.md, checked after every step, restarting after a failure; plus MULTI-METHOD registrations (one '
+         'call with a list of 2-3 methods over GET/POST/PUT, refused as a whole when its first, middle or last method is '
+         'taken; with overwrite; with a name): a universe /item,/item/:x,/other of 18 operations explored like the others, '
+         'and 40 (thorough 1200) random walks over the DESIGN.md universe with 10 single/multi-method adds per rule')
 NONTRIVIAL_RULE = 'distinct (universe, prefix, depth) or walk; every case replays at least one edit and checks >= 1 state'
 
 
@@ -56,7 +60,8 @@ def nontrivial(case):
 # ----------------------------------------------------------------------------- universes
 def _universes():
     x, n, p = W('x'), W('n', 'int'), W('p', 'path')
-    A = lambda ri, m='GET', ow=0, name=None: ['add', ri, m, 'r%d.%s%s' % (ri, m, '!' if ow else ''), ow, name]  # noqa
+    # m: one method name, or a list of method names registered by ONE call (refused as a whole if any of them is taken)
+    A = lambda ri, m='GET', ow=0, name=None: ['add', ri, m, 'r%d.%s%s' % (ri, m if isinstance(m, str) else '+'.join(m), '!' if ow else ''), ow, name]  # noqa
     U = {}
     U['split'] = dict(
         rules=[R('/ab'), R('/abc'), R('/abd')],
@@ -104,6 +109,16 @@ def _universes():
         hooks=[R('/f/', n)],
         names=[], prefixes=[[R('/f/', n, '.'), 'angle']],
         ops=[A(0), A(1), A(2), A(3), ['rm', 0], ['rm', 1], ['rm', 2], ['rm', 3], ['hook', 0, 'H0'], ['unhook', 0], ['rmprefix', 0]])
+    # registrations of SEVERAL methods by one call: such a call is refused as a whole when any method of its list (the
+    # first, a middle or the last one) is already taken - a refused call must leave no method of its list behind
+    G, P, T = 'GET', 'POST', 'PUT'
+    U['multi'] = dict(
+        rules=[R('/item'), R('/item/', x), R('/other')],
+        hooks=[R('/item')],
+        names=['n1'], prefixes=[[R('/item/'), 'colon']],
+        ops=[A(0, G), A(0, P), A(0, T), A(0, [P, G]), A(0, [G, P]), A(0, [T, P, G]), A(0, [P, T]), A(0, [P, G], 1),
+             A(1, [G, P]), A(1, P), A(1, [T, P], 0, 'n1'), A(2, [P, G], 0, 'n1'), A(2, G),
+             ['rm', 0], ['rm', 1], ['rmname', 'n1'], ['rmprefix', 0], ['hook', 0, 'H0']])
     # the universe of DESIGN.md (random walks)
     rules8 = [R('/ab'), R('/abc'), R('/abd'), R('/a/', x), R('/a/', x, '/b'), R('/a/', n), R('/a/b'), R('/')]
     ops = []
@@ -115,6 +130,15 @@ def _universes():
     U['design8'] = dict(
         rules=rules8, hooks=[R('/ab'), R('/a/', x), R('/a')], names=['n1', 'n2'],
         prefixes=[[R('/ab'), 'colon'], [R('/a/'), 'colon'], [R('/a/', x, '/'), 'colon']], ops=ops)
+    # the same universe with multi-method registrations (a second set of random walks)
+    mops = []
+    for ri in range(8):
+        mops += [A(ri), A(ri, P), A(ri, T), A(ri, [P, G]), A(ri, [G, T]), A(ri, [T, P, G]), A(ri, [P, T], 0, 'n1'),
+                 A(ri, [G, P], 1, 'n2'), ['rm', ri], ['rm', ri]]
+    for hi in range(3):
+        mops += [['hook', hi, 'H%d' % hi], ['unhook', hi]]
+    mops += [['rmname', 'n1'], ['rmname', 'n2'], ['rmprefix', 0], ['rmprefix', 1], ['rmprefix', 2]]
+    U['design8m'] = dict(U['design8'], ops=mops)
     for u in U.values():
         u['rules'] = [[r, 'colon'] for r in u['rules']]
         u['hooks'] = [[r, 'colon'] for r in u['hooks']]
@@ -162,7 +186,7 @@ def _mkcase(uname, prefix, depth):
 
 def gen_cases(tier, seed):
     cases = []
-    scen = ['split', 'wild', 'hookonly', 'names', 'root', 'paramkids', 'inseg']
+    scen = ['split', 'wild', 'hookonly', 'names', 'root', 'paramkids', 'inseg', 'multi']
     for uname in scen:
         ops = UNIVERSES[uname]['ops']
         if tier == 'quick' and uname == 'inseg':
@@ -181,11 +205,20 @@ def gen_cases(tier, seed):
         walk = [rnd.choice(u['ops']) for _k in range(40)]
         cases.append(dict(kind='walk', universe='design8', rules=u['rules'], hooks=u['hooks'], names=u['names'],
                           prefixes=u['prefixes'], probes=u['probes'], walk=walk))
+    u = UNIVERSES['design8m']
+    for _ in range(40 if tier == 'quick' else 1200):
+        walk = [rnd.choice(u['ops']) for _k in range(40)]
+        cases.append(dict(kind='walk', universe='design8m', rules=u['rules'], hooks=u['hooks'], names=u['names'],
+                          prefixes=u['prefixes'], probes=u['probes'], walk=walk))
     random.Random(4242).shuffle(cases)
     return cases
 
 
 # ----------------------------------------------------------------------------- the model (what the statement says survives)
+def _mlist(m):
+    return [m] if isinstance(m, str) else list(m)
+
+
 class Model:
     def __init__(self, case):
         self.rules = [r for r, _f in case['rules']]
@@ -220,7 +253,7 @@ class Model:
                 return ('either', 'filter-vs-unspecified-hook') if maybe else ('accept', '')
             _, ri, m, _hid, ow, name = op
             cur = self.routes.get(self.rkeys[ri])
-            if cur and m in cur[1] and not ow:
+            if cur and not ow and any(mm in cur[1] for mm in _mlist(m)):
                 return 'refuse', 'dup'
             if name and not ow and name in self.names and self.names[name] != self.rkeys[ri]:
                 return 'refuse', 'name'
@@ -243,7 +276,8 @@ class Model:
         if kind == 'add':
             _, ri, m, hid, _ow, name = op
             key = self.rkeys[ri]
-            self.routes.setdefault(key, [ri, {}])[1][m] = hid
+            for mm in _mlist(m):
+                self.routes.setdefault(key, [ri, {}])[1][mm] = hid
             if name:
                 self.names[name] = key
         elif kind == 'rm':
@@ -310,7 +344,7 @@ class World:
         try:
             if kind == 'add':
                 _, ri, m, hid, ow, name = op
-                app.add_route(self.rtext[ri], m, self.handler(hid), name, overwrite=bool(ow))
+                app.add_route(self.rtext[ri], m if isinstance(m, str) else list(m), self.handler(hid), name, overwrite=bool(ow))
             elif kind == 'rm':
                 app.remove_route(self.rtext[op[1]])
             elif kind == 'rmname':
